@@ -66,6 +66,8 @@ def op_strategy():
     ops = [
         st.tuples(st.just("append_str"), i, text_str(6), style_opt()),
         st.tuples(st.just("append_text"), i, i, st.booleans()),
+        # append_tokens: (content, style) pairs; control characters that Text removes elsewhere are kept out of the tokens (append_tokens does not remove them)
+        st.tuples(st.just("append_tokens"), i, st.lists(st.tuples(text_str(5).map(lambda x: "".join(c for c in x if c not in CTRL)), style_opt()).map(list), max_size=4)),
         st.tuples(st.just("add"), i, i),
         st.tuples(st.just("add_str"), i, text_str(5)),
         st.tuples(st.just("join"), i, st.lists(i, max_size=3)),
@@ -201,6 +203,13 @@ class Histories(Part):
                 _, _, s, sty = op
                 sut(t.append, s, GS.build_style(sty))
                 new = (t, m.append_str(s, sty))
+            elif name == "append_tokens":
+                toks = op[2]
+                sut(t.append_tokens, [(x, GS.build_style(sty) if sty else None) for x, sty in toks])
+                mm = m
+                for x, sty in toks:
+                    mm = mm.append_str(x, sty)
+                new = (t, mm)
             elif name == "append_text":
                 _, _, j, fast = op
                 o, om = pool[j % len(pool)]
